@@ -231,8 +231,19 @@ class World:
                 raise
             except Exception as e:  # noqa
                 exc = e
-        return {"raised": type(exc).__name__ if exc is not None else None, "error": str(exc)[:160] if exc else None,
-                "stats": stats, "plan": plan}
+        out = {"raised": type(exc).__name__ if exc is not None else None, "error": str(exc)[:160] if exc else None,
+               "stats": stats, "plan": plan}
+        if exc is not None and plan.fired and not plan.persistent and damage is None:
+            # the fault is over: the SAME handle collects again on healthy storage (a periodic job's next run) - what
+            # it remembers from the aborted run must not turn into deletions
+            try:
+                t.garbage_collect(GRACE_MS)
+                out["second_run"] = "completed"
+            except HarnessError:
+                raise
+            except Exception as e2:  # noqa
+                out["second_run"] = "raised " + type(e2).__name__
+        return out
 
     def judge(self, planted: Optional[Dict[str, Optional[bytes]]] = None) -> Dict[str, Any]:
         """Compare the store with the template. `planted`: {file: bytes the harness put there / None = removed}."""
